@@ -110,7 +110,8 @@ def materialise(case):
     objs = {}
     for k, i, kids in case["nodes"]:
         if k == "c":
-            objs[i] = model.Content.from_data(b"content-%d" % i)
+            # (one content in four is hidden: a status, not another kind of object)
+            objs[i] = model.Content.from_data(b"content-%d" % i, status="hidden" if i % 4 == 1 else "visible")
         elif k == "s":
             objs[i] = model.SkippedContent.from_data(b"skipped-%d" % i, reason="too large")
         elif k == "e":
@@ -155,6 +156,7 @@ def check_cases(ctx, cases):
         skipped = [objs[i] for i in order if case["nodes"][i][0] == "s"]
         dirs = [objs[i] for i in order if case["nodes"][i][0] in ("d", "e")]
         known_ids = {oid(objs[i]) for i in case["known"]}
+        ids_of = {"c": {oid(o) for o in contents}, "s": {oid(o) for o in skipped}, "d": {oid(o) for o in dirs}}
         num = {}
         for i in range(n):
             num.setdefault(oid(objs[i]), len(num) + 1)
@@ -208,16 +210,24 @@ def check_cases(ctx, cases):
             def __init__(self):
                 self.contents, self.skipped_contents, self.directories = contents, skipped, dirs
 
-            def _missing(self, ids):
+            def _missing(self, ids, table):
                 queries[0] += 1
                 if queries[0] > 10 * n + 10:
                     raise RuntimeError("query budget exceeded: discovery does not terminate")
-                ans = [x for x in ids if x not in known_ids]
+                # (one table per kind of object, as in a real archive: an id asked of the wrong table is missing)
+                ans = [x for x in ids if x not in known_ids or x not in table]
                 # (the interface says Iterable: lists, sets, tuples and one-shot iterators in turn)
                 how = (case["sched_seed"] + queries[0]) % 5
                 return [ans, set(ans), tuple(ans), iter(ans), (x for x in ans)][how]
 
-            content_missing = skipped_content_missing = directory_missing = _missing
+            def content_missing(self, ids):
+                return self._missing(ids, ids_of["c"])
+
+            def skipped_content_missing(self, ids):
+                return self._missing(ids, ids_of["s"])
+
+            def directory_missing(self, ids):
+                return self._missing(ids, ids_of["d"])
 
         saved = (discovery.__dict__.get("set"), discovery.random, discovery.SAMPLE_SIZE)
         discovery.set = RecSet
